@@ -297,6 +297,10 @@ class BackendVSA(Backend):
             # TODO: Do we want to do anything here?
             return o
 
+        if not isinstance(a, StridedIntervalAnnotation | RegionAnnotation | UninitializedAnnotation):
+            # an annotation that says nothing about the value (simplification avoidance, user-defined ones)
+            return o
+
         raise ValueError(f"Unsupported annotation type {type(a)} for object {type(o)}")
 
     @staticmethod
